@@ -32,29 +32,35 @@ LEVEL = "proof"
 LEVEL_TEXT = (
     "Lean theorems about an executable model of ElfWriter.export_object (ET_REL and ET_EXEC, 32/64 bit, both byte orders) and an ELF reader "
     "Spec.Elf written from the gABI independently of the code, for ALL objects (no bound on the number or size of sections, symbols, "
-    "relocations, images), under the sole hypothesis that the writer returned a file: (1) the reader applied to the written file returns the "
-    "class and byte order of the machine, e_type, e_machine and, for executables, the value of the entry symbol as e_entry; (2) for every "
-    "executable the reader finds exactly one PT_LOAD segment per memory image, in order, with p_vaddr = p_paddr = Image.address, p_filesz = "
-    "p_memsz = len(Image.data), p_align = 4096, p_offset = p_vaddr (mod 4096) and the segment's file bytes equal to Image.data, and a loader "
-    "that maps whole file pages sees Image.data[i] at Image.address+i; (3) building blocks proved at full generality: every header record "
-    "(ELF header, program header, section header, symbol, RELA entry, also as tables) is read back field by field by the gABI record reader, "
-    "signed addends in two's complement; the string table returns every name ever entered also after later insertions; the symbol table is a "
-    "permutation of the object's symbols with all locals before all globals (sh_info = #locals+1); st_info and r_info split back; align_to "
-    "reaches a multiple of the alignment with zero padding; every writer step only appends, so a chunk once written stays at its offset in the "
-    "final file. The field layouts used by the model are the `_fields` dumped from the live header classes on every run and proved (decide) "
-    "equal to the gABI structures in the byte order announced by EI_DATA. The hand model is tied to the source by a byte-for-byte differential "
-    "run against write_elf on real compiled / linked objects of all five machines, and the property itself is evaluated on every real file with "
-    "the Lean gABI reader, GNU readelf and llvm-readelf."
+    "relocations, images), under the hypothesis that the writer returned a file (plus, for the tables, Guard: NUL-free names, section names "
+    "identify sections, image sections are object sections -- each guard has a Lean witness): (header) the reader returns the class, byte "
+    "order, e_type, e_machine and, for executables, the entry symbol's value as e_entry; (segments) exactly one PT_LOAD per memory image, in "
+    "order, p_vaddr = p_paddr = Image.address, p_filesz = p_memsz = len(Image.data), p_offset = p_vaddr (mod 4096), file bytes = Image.data, "
+    "and a page-mapping loader sees Image.data[i] at Image.address+i; (section header table) the table the reader finds at e_shoff is the null "
+    "entry followed by the writer's headers, the entry selected by e_shstrndx is the string table, and EVERY object section has an entry with "
+    "its address, size, alignment whose file bytes [sh_offset, sh_offset+sh_size) are the section's data and whose name resolves to the "
+    "section's name; sections of an image lie inside the image's PT_LOAD at sh_offset = p_offset + (sh_addr - p_vaddr); (symbol table) the "
+    ".symtab header (entsize, size, sh_info = #locals+1) and its file contents = null entry + packed entries of locals-then-globals (a proved "
+    "permutation), each with name, binding, type, size and (shndx, value) = (0,0) undefined / (SHN_ABS, value) absolute / (number of a header "
+    "whose NAME is the symbol's section, value + section address); (RELA) per section with relocations a .rela<section> header (sh_info = a "
+    "header named like the section) and contents = packed entries in order with r_offset, addend, the arch's type and as symbol the position "
+    "in the written symbol table of a symbol with the relocation's id. Every packed entry / table is read back by the reader's own parsers "
+    "(readTable, mkSymbol, mkRela, checkInfo: record, table, entry and sh_info theorems; string-table lookup theorem). The header layouts "
+    "used by the model are dumped from the live header classes on every run and proved (decide) equal to the gABI structures. The hand "
+    "model is tied to the source by a byte-for-byte differential run against write_elf on real compiled / linked objects of all five "
+    "machines, and the property is evaluated on every real file with the Lean gABI reader, GNU readelf and llvm-readelf."
 )
 LEVEL_NOTE = (
-    "PARTIAL (shape P): the composition `Spec.Elf.read (write obj) = view obj` for the section, symbol and relocation TABLES (readSections / "
-    "readSymTabs / readRelaTabs succeed on the written file and return the object's tables) is stated (Props.C17.read_write_full) but not proved "
-    "as one theorem; only its layers are. It is evaluated on every real file instead. trusted: Lean kernel; axioms propext/Classical.choice/"
-    "Quot.sound; Spec.Elf (validated against GNU readelf's parse of every file in the thorough tier, a sample in quick); the hand model <-> source "
-    "correspondence is sampled (byte equality on every generated file), not proved; struct.pack / BytesIO seek-tell semantics as modelled. Not "
-    "covered: ET_DYN/dynamic section, debug sections, arch.get_reloc_type (arch code; its result is an input), readers other than "
-    "readelf / llvm-readelf / the Linux loader (pyelftools is not installed). Two open findings: relocatable files with relocations cannot be "
-    "written for the four non-x86 machines (NotImplementedError) nor for x86_64 relocation types missing from elf_reloc_mapping (KeyError)."
+    "PARTIAL (shape P): proved at the level of the reader's primitives and entry parsers (readTable at e_shoff, slice, strAt, mkSymbol, mkRela, "
+    "checkInfo) plus readIdent/readEhdr/readSegments as whole functions; NOT proved: that the reader's table drivers readSections / readSymTabs "
+    "/ readRelaTabs succeed on the written file, i.e. Spec.Elf.read (write obj) = view obj as ONE equation (Props.C17.read_write_full; these "
+    "also need sh_addr % sh_addralign = 0, power-of-two alignments and r_type fitting the class, which the writer does not enforce). That last "
+    "step is evaluated on every real file. trusted: Lean kernel; axioms propext/Classical.choice/Quot.sound; Spec.Elf (validated against GNU "
+    "readelf's parse of every file in the thorough tier, a sample in quick); the hand model <-> source correspondence is sampled (byte equality "
+    "on every generated file), not proved; struct.pack / BytesIO seek-tell semantics as modelled. Not covered: ET_DYN/dynamic section, debug "
+    "sections, arch.get_reloc_type (arch code; its result is an input), readers other than readelf / llvm-readelf / the Linux loader. Two open "
+    "findings: relocatable files with relocations cannot be written for the four non-x86 machines (NotImplementedError) nor for x86_64 "
+    "relocation types missing from elf_reloc_mapping (KeyError)."
 )
 TECHNIQUE = ("Lean 4 proof (induction over field lists / symbol lists / the writer's append-only file) about a hand model + table translation "
              "(header _fields dumped from live classes, decide) + byte-exact differential correspondence + independent readers (Lean gABI reader, readelf)")
@@ -968,6 +974,20 @@ def check(ctx, lean=True):
                             "lean_reader": (views.get(k, "")[:120] + "...") if lean else "n/a"})
         native_run(ctx, tmp)
         ctx.extra_cov["exhaustive"] = False
+        ctx.extra_cov["tables_covered_by_theorems"] = {
+            "ident+ELF header (class, byte order, e_type, e_machine, e_entry, e_phnum)": "header_read_back_partial (readIdent/readEhdr as whole functions)",
+            "program headers / PT_LOAD = images": "segments_hold_images_partial, page_loader_sees_image (readSegments as a whole function)",
+            "section header table: every object section's name/address/size/alignment/file bytes; e_shstrndx string table; image sections inside their segment": "section_table_read_back_partial (readTable at e_shoff, slice, strAt)",
+            "symbol table: header + contents (null entry, locals-then-globals, value/binding/type/section name/SHN_ABS/UND)": "symbol_and_rela_tables_partial + symbol_entry_read_back + reader_accepts_symbol_order + table_roundtrip",
+            "RELA tables: header + entries (offset, symbol via symtab order, arch type, addend)": "symbol_and_rela_tables_partial + rela_entry_read_back_partial + table_roundtrip",
+            "composition for one file": "read_write_partial (Guard: NUL-free names, unique section names, image sections are object sections)",
+        }
+        ctx.extra_cov["evaluated_per_file_only"] = [
+            "Spec.Elf.read(file) succeeds as ONE call (drivers readSections/readSymTabs/readRelaTabs incl. the alignment / r_type-width checks) and its view equals the object",
+            "acceptance by GNU readelf and llvm-readelf (no warning/error), agreement of readelf's parse with the Lean reader",
+            "native execution by the Linux loader (x86_64 exit(42) from aligned and unaligned load addresses)",
+            "model bytes = write_elf bytes",
+        ]
         ctx.extra_cov["corpus_cases"] = ncorpus
         ctx.extra_cov["generated_cases"] = len(cases) - ncorpus
     finally:
